@@ -37,6 +37,14 @@ func (s *spyWriter) Write(b []byte) (int, error) {
 	return n, err
 }
 
+// ReadFrom makes the spy an io.ReaderFrom, as net/http's own response writer is: whatever arrives this way is body
+// bytes that reached the underlying writer.
+func (s *spyWriter) ReadFrom(r io.Reader) (int64, error) {
+	b, _ := io.ReadAll(r)
+	n, err := s.Write(b)
+	return int64(n), err
+}
+
 // WriteString makes the spy an io.StringWriter, as net/http's own response writer is.
 func (s *spyWriter) WriteString(str string) (int, error) { return s.Write([]byte(str)) }
 
